@@ -85,7 +85,8 @@ Op(x) ==
                                             !.cf = RandomElement({FALSE, FALSE, TRUE})]]
       [] die = 10 -> [op |-> "remove", rec |-> RandomElement(ExpiryCat)]
       [] die = 11 -> IF RandomElement(1 .. 4) = 1 THEN [op |-> "clear"] ELSE [op |-> "sleep", ms |-> 300]
-      [] die <= 15 -> [op |-> "sleep", ms |-> RandomElement({300, 600, 900, 1200, 1200})]
+      [] die <= 14 -> [op |-> "sleep", ms |-> RandomElement({300, 600, 900, 1200, 1200})]
+      [] die = 15 -> [op |-> "refresh"]
       [] OTHER -> [op |-> "query", name |-> IF seen = {} THEN RandomElement(ExpiryNames) ELSE again.name,
                    filter |-> RandomElement({"auth", "auth_sub", "cached", "cached", "cached", "all"})]
 
